@@ -28,8 +28,8 @@ THEOREMS = ["c15_insufficient", "c15_insufficient_uses_budget", "c15_calls_le_bu
             "c15_progress_chain"]
 
 MANIFEST = {
-    "text": "Loader loop of is_authorized_batched modelled with the partial evaluator abstract (Section variables; hypotheses listed in notes/C15.md): only non-decision outcome is InsufficientIterations (exact loader), decisions are monotone in the budget, budget > |uids| decides, a decision equals the concrete one given residual soundness; a loader that returns an already-loaded entity makes the loop fail with Duplicate (refutation witness). Implementation-level oracle on PolicySet::is_authorized_batched vs Authorizer::is_authorized for every budget and 5 loader variants; correspondence of the model loop driven by observed per-iteration facts.",
-    "technique": "proof (Coq, induction over the budget with a loaded-set invariant) + differential/metamorphic oracle + trace correspondence",
+    "text": "Loader loop of is_authorized_batched (as of 6dde98e: entities returned again are skipped) modelled with the partial evaluator abstract (Section variables; hypotheses listed in notes/C15.md): only non-decision outcome is InsufficientIterations and only after exactly n loader calls, decisions are monotone in the budget, budget > |uids of the universe| decides (c15_progress, loader hypotheses proved for loader_of/loader_all, all interp hypotheses proved for the pointer-chain instance), a decision equals the concrete one given residual soundness (C14). Implementation-level oracle on PolicySet::is_authorized_batched vs Authorizer::is_authorized for every budget and 6 loader variants; chain policies are modelled WITHOUT facts from the implementation (outcome and requested ids per iteration predicted by the model), other policies by a fact-table driven model loop.",
+    "technique": "proof (Coq, induction over the budget with a loaded-set invariant and the measure |universe| - |loaded|) + differential/metamorphic oracle + trace correspondence",
     "note": "TPE itself is not modelled here (C14); its needed properties are Section hypotheses.",
 }
 
@@ -388,6 +388,8 @@ def run(rep, tier, seed):
             rcalls = [sorted(int(u.split('"')[1][1:]) for u in call["requested"]) for call in r["calls"]]
         except Exception:
             rcalls = [["?"] + call["requested"] for call in r["calls"]]
+        if ro[0] not in ("ok", "insufficient"):
+            continue        # an error outcome is reported by the oracle above
         if mo != ro or mcalls != rcalls:
             rep.violation({"property": PROP, "kind": "chain model (Batched.v c_batched_full: loop + chain evaluator, no facts from the implementation) "
                            "and is_authorized_batched disagree on the outcome or on the ids requested per iteration",
